@@ -82,6 +82,7 @@ type Interp struct {
 	refine      map[string][2]*big.Int // path-local interval refinements by term key
 	numLeaves   []*Term                // integer-valued symbolic leaves of documents
 	tok         *tokenMode
+	Cross       *CrossCheck
 	onceDone    map[*StructV]bool
 	dom         map[string]*smallDom // finite domains of small-range variables
 	entangled   map[string]bool      // variables that occur in multi-variable conjuncts
@@ -131,6 +132,55 @@ func (in *Interp) unsupported(msg string) {
 
 func (in *Interp) goPanic(msg string) {
 	panic(goPanic{Msg: msg, Where: in.where(), Stack: in.stackNames()})
+}
+
+// CrossCheck re-asks a sample of the deciding "unsat" verdicts to a second
+// solver (shared by the paths of one worker).
+type CrossCheck struct {
+	Name     string
+	Every    int
+	S        *Solver
+	n        int
+	Asked    int
+	Agree    int
+	Disagree int
+	Unknown  int
+}
+
+// crossUnsat is called when the primary solver answered unsat for the
+// negation of an assertion (i.e. the assertion holds on this path).
+func (in *Interp) crossUnsat(extra ...*Term) {
+	c := in.Cross
+	if c == nil || c.Every <= 0 {
+		return
+	}
+	c.n++
+	if c.n%c.Every != 1 {
+		return
+	}
+	if c.S == nil {
+		s, err := NewSolver(c.Name, 10000)
+		if err != nil {
+			c.Every = 0
+			return
+		}
+		c.S = s
+	}
+	as := make([]*Term, 0, len(in.bg)+len(in.pc)+len(extra))
+	as = append(as, in.bg...)
+	as = append(as, in.pc...)
+	as = append(as, extra...)
+	r, _ := c.S.Check(as, false)
+	c.Asked++
+	switch r {
+	case Unsat:
+		c.Agree++
+	case Sat:
+		c.Disagree++
+		in.Events = append(in.Events, Event{Kind: "inconclusive", Msg: "solvers disagree on an assertion (" + in.Solver.Name + ": unsat, " + c.Name + ": sat)", Where: in.where()})
+	default:
+		c.Unknown++
+	}
 }
 
 // ---- path condition and decisions ------------------------------------
